@@ -36,7 +36,7 @@ Definition site_model_ok (c : site_case) : bool :=
   | None =>
       if n =? 11 then
         match aux with
-        | [pre; post] => str_eqb (site_block_doc pre post t) out && safe_doc_raw pre && post_closes post
+        | [pre; post] => str_eqb (site_block_doc pre post t) out && safe_doc_raw pre && isoq post
         | _ => false
         end
       else if n =? 12 then site_docwriter_rel (join t aux) out && safe_doc_raw (concat aux)
@@ -68,8 +68,7 @@ Definition run_site (cases : list site_case) : list N :=
 
 (* ---------- (iii) predicted verdict for a position feeding sites ns with text t *)
 Definition ws_to_sp (t : str) : str := map (fun c => if doc_ws c then 32 else c) t.
-Definition s_version : str := [32;40;118;101;114;115;105;111;110;32;49;46;48;41].  (* " (version 1.0)" *)
-Definition block_line (t : str) : str := q3 ++ 10 :: t ++ 10 :: q3.
+Definition block_line (t : str) : str := site_block_line t.
 Definition site_pred (n : N) (t : str) : bool :=
   match site_fn n with
   | Some f =>
@@ -79,7 +78,7 @@ Definition site_pred (n : N) (t : str) : bool :=
   | None =>
       if n =? 12 then inert_doc_b (block_line (ws_to_sp t))
       else if n =? 13 then inert_doc_b (site_tag_doc t)
-      else if n =? 15 then inert_doc_b (block_line (t ++ s_version))
+      else if n =? 15 then inert_doc_b (site_client_title [49;46;48] t)
       else if n =? 16 then no_chars bad_raw t
       else inert_doc_b (block_line t)
   end.
